@@ -457,6 +457,20 @@ func heldAcrossClunk(held, drop string, dotu bool, maxpend int) string {
 		}
 		got := stat(1)
 		switch {
+		case rebound && got == "valid:"+to && func() bool {
+			// ... and the fid works: a request that satisfies the rules reaches the implementation
+			n := len(s.fs.Log)
+			r := s.c.Rpc(&wire.Msg{Type: wire.Topen, Tag: s.tag(), Fid: 1, Mode: 0})
+			fwd := false
+			for _, e := range s.fs.Log[n:] {
+				if e.Kind == "call" && e.Op == "Open" {
+					fwd = true
+				}
+			}
+			return r == nil || r.Type != wire.Ropen || !fwd
+		}():
+			bad = fmt.Sprintf("fid 1 was bound again (Rwalk) while a %s on the old fid 1 was still held; once that %s completed, a Topen on the new fid 1 is not forwarded / not answered with Ropen", held, held)
+			return
 		case rebound && got != "valid:"+to:
 			bad = fmt.Sprintf("fid 1 was bound again (Rwalk) while a %s on the old fid 1 was still held; once that %s completed, Tstat on fid 1 answers %q", held, held, got)
 			return
@@ -564,6 +578,7 @@ func c04UfsValidity(dotu bool, depth int) Scenario {
 				ev{"link through 1 to fid 2 (a file)", link("hl", "2"), -1, -1},
 				ev{"link through 1 to fid 3 (a directory: refused)", link("hd", "3"), -1, -1},
 				ev{"link through 1 to fid 7 (unknown)", link("hu", "7"), -1, -1},
+				ev{"link through 1 to fid 1 (itself)", link("hs", "1"), -1, -1},
 				ev{"symlink through 1", func() *wire.Msg {
 					return &wire.Msg{Type: wire.Tcreate, Fid: 1, Name: "sl", Perm: go9p.DMSYMLINK | 0777, Mode: 0, Ext: "f"}
 				}, -1, -1})
